@@ -82,6 +82,37 @@ def _module_tables(tree: ast.Module) -> dict[str, ast.expr]:
     return out
 
 
+def _local_tables(fn) -> dict[str, ast.expr]:
+    """locals of one function (nested functions excluded) bound exactly once, by a plain assignment of a tuple / list
+    display, never rebound, deleted, changed in place or captured by a nested function"""
+    stores: dict[str, int] = {}
+    cand: dict[str, ast.expr] = {}
+    bad: set[str] = {a.arg for a in fn.args.args + fn.args.kwonlyargs + fn.args.posonlyargs}
+    stack = list(fn.body)
+    while stack:
+        x = stack.pop()
+        if isinstance(x, (ast.FunctionDef, ast.AsyncFunctionDef, ast.ClassDef, ast.Lambda)):
+            for y in ast.walk(x):
+                if isinstance(y, ast.Name):
+                    bad.add(y.id)
+            continue
+        if isinstance(x, ast.Name) and isinstance(x.ctx, (ast.Store, ast.Del)):
+            stores[x.id] = stores.get(x.id, 0) + 1
+        if isinstance(x, ast.Assign) and len(x.targets) == 1 and isinstance(x.targets[0], ast.Name) and isinstance(x.value, (ast.Tuple, ast.List)):
+            cand[x.targets[0].id] = x.value
+        if isinstance(x, ast.Call) and isinstance(x.func, ast.Attribute) and isinstance(x.func.value, ast.Name) and x.func.attr in (
+                "append", "extend", "insert", "pop", "remove", "clear", "sort", "reverse"):
+            bad.add(x.func.value.id)
+        if isinstance(x, (ast.Subscript, ast.Attribute)) and isinstance(x.ctx, (ast.Store, ast.Del)) and isinstance(x.value, ast.Name):
+            bad.add(x.value.id)
+        if isinstance(x, ast.AugAssign) and isinstance(x.target, ast.Name):
+            bad.add(x.target.id)
+        if isinstance(x, (ast.Global, ast.Nonlocal)):
+            bad.update(x.names)
+        stack.extend(ast.iter_child_nodes(x))
+    return {k: v for k, v in cand.items() if stores.get(k) == 1 and k not in bad}
+
+
 def _imports(modname: str, is_pkg: bool, tree: ast.Module) -> dict[str, tuple[str, str]]:
     """local name -> (module, name) for `from <package module> import NAME [as local]` at top level"""
     out = {}
@@ -108,12 +139,17 @@ class _Unroller:
         self.tables = {mn: _module_tables(t) for mn, (t, _p) in trees.items()}
         self.count = 0
         self.sites: list[str] = []
+        self.local_tables: dict[str, ast.expr] = {}
 
     # ---- rows of an iterable, as syntax
     def _display(self, modname: str, imports, e: ast.expr, shadowed: set[str]):
         """-> (display node, defined in this module?) or None"""
         if isinstance(e, (ast.Tuple, ast.List, ast.Dict)):
             return e, True
+        if isinstance(e, ast.Name) and e.id in self.local_tables:
+            # a local of the enclosing function bound exactly once to a display and never changed in place (typically the
+            # parameter of an inlined helper: `check(reply, required=((K1, "..."), (K2, "...")))`)
+            return self.local_tables[e.id], True
         if isinstance(e, ast.Name) and e.id not in shadowed:
             if e.id in self.tables[modname]:
                 return self.tables[modname][e.id], True
@@ -227,7 +263,10 @@ class _Unroller:
                     sh.add(x.id)
                 elif isinstance(x, ast.arg):
                     sh.add(x.arg)
+            saved = self.local_tables
+            self.local_tables = _local_tables(st)
             st.body = self._body(modname, imports, st.body, sh)
+            self.local_tables = saved
             return
         for field in ("body", "orelse", "finalbody"):
             b = getattr(st, field, None)
